@@ -36,8 +36,14 @@ class Other(ComplexModel):
     z = Unicode
 
 
+class OtherSub(Other):         # a second, unrelated hierarchy that has subclasses of its own
+    __namespace__ = 'tns'
+    y = Integer
+
+
 class Holder(ComplexModel):
     __namespace__ = 'tns'
+    other = Other
     base = Base
     n = Integer
     s = Unicode
@@ -55,7 +61,10 @@ class _Svc(Service):
 APP = Application([_Svc], 'tns', in_protocol=XmlDocument(validator='soft'), out_protocol=XmlDocument())
 CTX = fake_ctx(APP)
 XPROTS = {'XmlDocument': XmlDocument(app=APP), 'XmlDocument soft': XmlDocument(app=APP, validator='soft'),
-          'Soap11 soft': Soap11(app=APP, validator='soft')}
+          'Soap11 soft': Soap11(app=APP, validator='soft'),
+          # with the schema validator only the body entry is validated by libxml2: header entries (and anything else that
+          # reaches from_element directly) depend on from_element's own check
+          'Soap11 lxml': Soap11(app=APP, validator='lxml'), 'XmlDocument lxml': XmlDocument(app=APP, validator='lxml')}
 NSMAP = {'tns': 'tns', None: 'tns', 'xs': XSD_NS, 'q': 'urn:elsewhere'}
 XSI_TYPE = '{%s}type' % XSI_NS
 
@@ -249,6 +258,34 @@ def json_wrapper_key(sx, n):
             ok.append(sx.Implies(sx.eq(key, name), type(out.value) is cls))
     ok.append(sx.Or(*[sx.eq(key, name) for name in want if len(name) == n]))
     return sx.And(*ok)
+
+
+@harness('C04', params=[(first, n) for first in ('Sub', 'SubSub', 'OtherSub', 'none') for n in (3, 5, 6, 8)],
+         label=lambda p: 'first=%s keylen=%d' % p,
+         functions=['spyne.protocol.dictdoc.hier.HierDictDocument._doc_to_object'],
+         bounds={'history': 'one protocol instance decodes a legitimate document first (wrapper key Sub, SubSub or OtherSub at its '
+                            'own position, or nothing), then a document whose wrapper key at a Base position and at an Other '
+                            'position is any string of 3..8 letters over the registered names'})
+def json_wrapper_key_history(sx, p):
+    """what a protocol instance decoded earlier does not widen what it admits later: a wrapper key still selects only the
+    declared class or one of its own registered subclasses at each position"""
+    first, n = p
+    prot = JsonDocument(app=APP, validator='soft', ignore_wrappers=False)     # a fresh instance per path: its own history
+    if first in ('Sub', 'SubSub'):
+        prot._doc_to_object(CTX, Base, {first: {'a': 1}}, prot.validator)
+    elif first == 'OtherSub':
+        prot._doc_to_object(CTX, Other, {first: {'z': 'q'}}, prot.validator)
+    key = sx.text('key', n, alphabet='BaseSubOthr')
+    pos = sx.choose('position', ['Base', 'Other'])
+    decl = Base if pos == 'Base' else Other
+    try:
+        out = run_soft(lambda: prot._doc_to_object(CTX, decl, sx.mkdict([(key, {})]), prot.validator))
+    except Exception as e:
+        sx.outside('non-fault exception %s escapes (counted under C10)' % type(e).__name__)
+    sx.observe('accepted', out.accepted)
+    if not out.accepted:
+        return is_client_validation_fault(out.fault)
+    return out.value is None or isinstance(out.value, decl)
 
 
 # ---------------------------------------------------------------- binary scalars (YAML !!binary, msgpack bin)
